@@ -21,7 +21,7 @@ PROP = dict(
                  "BitReader reads are generated inside its length only (BitReader is unchecked by design)",
                  "positional writes land at most 64 bytes past the end of the buffer",
                  "BufferWriter is given a buffer of exactly the model's final size (bounds behaviour is C02)"],
-    min_evaluations_quick=100000,
+    min_evaluations_quick=17000000, min_evaluations_thorough=18000000,
     technique=("property-based testing: rapidcheck operation sequences + exhaustive small-scope enumeration against an independent "
                "encoder/decoder (multiplication/division byte assembly, arithmetic sign extension, bit-list packing)"),
     level_text=("Exploration: every case drives the real StringWriter/BufferWriter/BitWriter and StringReader/BitReader (ASan+UBSan "
